@@ -26,12 +26,6 @@ use crate::rt::{self, Outcome, Persp, RecSink, Rt};
 // ------------------------------------------------------------------------------------------
 // Spy perspective
 
-#[derive(Debug, Clone, PartialEq, Eq)]
-pub enum IoCall {
-    Insert(String, Keys, Box<[u8]>),
-    Delete(String, Keys),
-}
-
 pub struct Spy<'a> {
     inner: &'a mut Persp,
     pub log: Vec<(String, Vec<Box<[u8]>>, Option<Box<[u8]>>)>,
@@ -198,6 +192,7 @@ action seed() { publish Seed { } }
 struct Rendered {
     text: String,
     args: Vec<Value>,
+    names: Vec<String>,
 }
 
 fn render_case(idx: usize, case: &Jv) -> Rendered {
@@ -212,7 +207,11 @@ fn render_case(idx: usize, case: &Jv) -> Rendered {
         fdef.join(", "),
         fpass.join(", ")
     );
-    Rendered { text, args: r.fields.into_iter().map(|(_, _, v)| v).collect() }
+    Rendered {
+        text,
+        names: r.fields.iter().map(|(n, _, _)| n.clone()).collect(),
+        args: r.fields.into_iter().map(|(_, _, v)| v).collect(),
+    }
 }
 
 fn document(parts: &[(usize, &Rendered)]) -> String {
@@ -234,6 +233,8 @@ fn io_json(name: &str, keys: &[Box<[u8]>], val: &Option<Box<[u8]>>) -> Jv {
 
 #[derive(Default)]
 struct Stats {
+    setup_failed: u64,
+    vm_level: u64,
     docs: u64,
     rejected: u64,
     ran: u64,
@@ -243,6 +244,7 @@ struct Stats {
 /// Runs the cases `idxs` (already rendered); recursion = bisection on compile errors.
 #[allow(clippy::too_many_arguments)]
 fn run_batch(
+    force_vm: bool,
     cases: &[Jv],
     rendered: &[Rendered],
     idxs: &[usize],
@@ -267,18 +269,35 @@ fn run_batch(
             }
             stats.recompiles += 1;
             let (a, b) = idxs.split_at(idxs.len() / 2);
-            run_batch(cases, rendered, a, out, stats, rejects);
-            run_batch(cases, rendered, b, out, stats, rejects);
+            run_batch(force_vm, cases, rendered, a, out, stats, rejects);
+            run_batch(force_vm, cases, rendered, b, out, stats, rejects);
             return;
         }
     };
-    let mut rt_ = Rt::new(module).unwrap_or_else(|e| vrt::die(&e));
-    // committed segment with F[1]=>{1}
+    if force_vm {
+        run_vm_level(&module, cases, rendered, idxs, out, stats);
+        return;
+    }
+    // Setup through VmPolicy: graph with an Init command, then a committed segment with
+    // F[1]=>{1}.  Both are themselves `policy { finish {..} }` commands; if the tree under test
+    // cannot even evaluate those (e.g. finish no longer exits), fall back to entering the
+    // command policies directly in the VM (same VmPolicyIO, perspective and sink).
+    let mut rt_ = match Rt::new(module.clone()) {
+        Ok(r) => r,
+        Err(e) if e.starts_with("init action") => {
+            stats.setup_failed += 1;
+            run_vm_level(&module, cases, rendered, idxs, out, stats);
+            return;
+        }
+        Err(e) => vrt::die(&e),
+    };
     {
         let mut p = rt_.perspective().unwrap_or_else(|e| vrt::die(&e));
         let mut sink = RecSink::default();
         if rt_.action(&mut p, "seed", vec![], &mut sink) != Outcome::Ok {
-            vrt::die("seed action failed");
+            stats.setup_failed += 1;
+            run_vm_level(&module, cases, rendered, idxs, out, stats);
+            return;
         }
         rt_.commit(p).unwrap_or_else(|e| vrt::die(&e));
     }
@@ -307,6 +326,81 @@ fn run_batch(
         stats.ran += 1;
         let after = rt::dump_facts(&p, "F").unwrap_or_else(|e| vrt::die(&e));
         out.push((i, decide(i, case, &outcome, &log, &sink, &before, &after)));
+    }
+}
+
+/// Enters command policies directly in the VM: `Machine::create_run_state` +
+/// `RunState::call_command_policy` on the real `VmPolicyIO` over an unrooted linear-storage
+/// perspective (what `VmPolicy::evaluate_rule` does, without seal/open/serialisation).
+fn run_vm_level(module: &aranya_policy_vm::Module, cases: &[Jv], rendered: &[Rendered], idxs: &[usize], out: &mut Vec<(usize, Jv)>, stats: &mut Stats) {
+    use aranya_crypto::{default::DefaultEngine, Rng};
+    use aranya_runtime::{storage::linear::testing::MemStorageProvider, vm_policy::testing::TestFfiEnvelope, FfiCallable, StorageProvider};
+    let machine = aranya_policy_vm::Machine::from_module(module.clone()).unwrap_or_else(|e| vrt::die(&format!("machine: {e}")));
+    let (eng, _) = DefaultEngine::from_entropy(Rng);
+    let ffis: Vec<Box<dyn FfiCallable<DefaultEngine<Rng>> + Send + 'static>> =
+        vec![Box::from(TestFfiEnvelope { device: aranya_crypto::DeviceId::default() })];
+    for &i in idxs {
+        let mut provider = MemStorageProvider::default();
+        let mut p = provider.new_perspective(PolicyId::new(0));
+        {
+            let mut sink = RecSink::default();
+            let _ = enter_policy(&machine, &eng, &ffis, "Seed", Vec::new(), &mut p, &mut sink);
+        }
+        let before = rt::dump_facts(&p, "F").unwrap_or_else(|e| vrt::die(&e));
+        if fact_pairs(&before) != vec![(1, 1)] {
+            vrt::die("VM-level seeding did not produce F[1]=>{1}");
+        }
+        let mut sink = RecSink::default();
+        let fields: Vec<(aranya_policy_vm::Identifier, Value)> =
+            rendered[i].names.iter().zip(&rendered[i].args).map(|(n, v)| (rt::ident(n), v.clone())).collect();
+        let (outcome, log) = {
+            let mut spy = Spy { inner: &mut p, log: Vec::new() };
+            let o = enter_policy(&machine, &eng, &ffis, &format!("P{i}"), fields, &mut spy, &mut sink);
+            (o, spy.log)
+        };
+        stats.ran += 1;
+        stats.vm_level += 1;
+        let after = rt::dump_facts(&p, "F").unwrap_or_else(|e| vrt::die(&e));
+        let mut r = decide(i, &cases[i], &outcome, &log, &sink, &before, &after);
+        r["vm_level"] = json!(true);
+        out.push((i, r));
+    }
+}
+
+fn enter_policy<P: FactPerspective>(
+    machine: &aranya_policy_vm::Machine,
+    eng: &aranya_crypto::default::DefaultEngine<aranya_crypto::Rng>,
+    ffis: &[Box<dyn aranya_runtime::FfiCallable<aranya_crypto::default::DefaultEngine<aranya_crypto::Rng>> + Send + 'static>],
+    name: &str,
+    fields: Vec<(aranya_policy_vm::Identifier, Value)>,
+    facts: &mut P,
+    sink: &mut RecSink,
+) -> Outcome {
+    use aranya_policy_vm::{CommandContext, ExitReason, PolicyContext, Struct};
+    let name = rt::ident(name);
+    let mut io = aranya_runtime::VmPolicyIO::new(facts, sink, eng, ffis);
+    let ctx = CommandContext::Policy(PolicyContext {
+        name: name.clone(),
+        id: CmdId::default(),
+        author: aranya_crypto::DeviceId::default(),
+        version: aranya_crypto::BaseId::default(),
+    });
+    let mut rs = machine.create_run_state(&mut io, ctx);
+    let this = Struct::new(name, fields);
+    let env: Struct = aranya_runtime::Envelope {
+        parent_id: CmdId::default(),
+        author_id: aranya_crypto::DeviceId::default(),
+        command_id: CmdId::default(),
+        signature: std::borrow::Cow::Borrowed(&[]),
+    }
+    .into();
+    match vrt::catch_any(|| rs.call_command_policy(this, env)) {
+        Err(m) => Outcome::RustPanic(m),
+        Ok(Ok(ExitReason::Normal)) => Outcome::Ok,
+        Ok(Ok(ExitReason::Check)) => Outcome::Rejected,
+        Ok(Ok(ExitReason::Panic)) => Outcome::Panic,
+        Ok(Ok(ExitReason::Yield)) => Outcome::Other("yield".into()),
+        Ok(Err(_)) => Outcome::Internal,
     }
 }
 
@@ -441,6 +535,7 @@ fn decide(
 pub fn run(args: &Args) {
     let cases = args.read_input();
     let batch = args.opt_u64("batch", 64) as usize;
+    let force_vm = args.opt_bool("vmlevel");
     let rendered: Vec<Rendered> = cases.iter().enumerate().map(|(i, c)| render_case(i, c)).collect();
     if let Some(p) = args.opts.get("dump-policy") {
         let parts: Vec<(usize, &Rendered)> = rendered.iter().enumerate().take(batch).collect();
@@ -451,7 +546,7 @@ pub fn run(args: &Args) {
     let mut rejects = Vec::new();
     let all: Vec<usize> = (0..cases.len()).collect();
     for chunk in all.chunks(batch) {
-        run_batch(&cases, &rendered, chunk, &mut results, &mut stats, &mut rejects);
+        run_batch(force_vm, &cases, &rendered, chunk, &mut results, &mut stats, &mut rejects);
     }
     results.sort_by_key(|(i, _)| *i);
     let mut out = args.out();
@@ -460,8 +555,8 @@ pub fn run(args: &Args) {
     }
     out.finish();
     eprintln!(
-        "stmts: {} cases, {} documents compiled ({} bisections), {} programs rejected by the compiler, {} run",
-        cases.len(), stats.docs, stats.recompiles, stats.rejected, stats.ran
+        "stmts: {} cases, {} documents compiled ({} bisections), {} programs rejected by the compiler, {} run ({} at VM level, {} batches with failed VmPolicy setup)",
+        cases.len(), stats.docs, stats.recompiles, stats.rejected, stats.ran, stats.vm_level, stats.setup_failed
     );
     for (i, e) in rejects.iter().take(5) {
         eprintln!("  rejected {i}: {e}");
